@@ -405,3 +405,6 @@ def run(ctx):
     rule_pq(ctx)
     rule_allele_mixture(ctx, 'R18.6')
     rule_pedigree_samples(ctx, rule='R18.5/sample-index')
+    # (sample, genotype index) keys the likelihood every move reads: the index must tell genotypes apart
+    from .c11 import rule_tables
+    rule_tables(ctx, rule='R18.9')
